@@ -734,6 +734,39 @@ func c14OwnQueue(r *gen.Rng, o *out.W) {
 	o.Sample(fmt.Sprintf("own-queue flood, queue %d, %d lines", q, len(w.trace)))
 }
 
+// the publisher's own queue is full when its QoS 2 message is released (C07): the backend has already queued the
+// message for the sessions it visited first, then refuses; the publisher is closed with the message still stored and
+// the PUBREL it retransmits on the resumed session hands the message on a second time
+func c07QueueFull(r *gen.Rng, o *out.W) {
+	w := newWorld(o, "C07", 1, 1, nil)
+	s := w.Conn()
+	w.Connect(s, "S", true, nil, 0, "", "")
+	w.Subscribe(s, packet.Subscription{Topic: "t", QOS: 2})
+	p := w.Conn()
+	w.Connect(p, "P", false, nil, 0, "", "")
+	w.Subscribe(p, packet.Subscription{Topic: "t", QOS: 1}, packet.Subscription{Topic: "u", QOS: 1})
+	q := w.Conn()
+	w.Connect(q, "Q", true, nil, 0, "", "")
+	w.Publish(q, "u", 1, false, false) // delivered to P, never acknowledged: P's window (1) is used up
+	w.Publish(q, "u", 1, false, false) // queued for P: P's queue (1) is full
+	w.Publish(p, "t", 2, false, false)
+	w.Release(p) // PUBREL: S gets the message, P's own queue is full, Backend.Publish fails, P is closed
+	if !w.alive(p) {
+		p2 := w.Reconnect(p, false)
+		for _, id := range w.peers[p].open2 {
+			w.Send(p2, &packet.Pubrel{ID: id})
+		}
+		for _, id := range w.peers[p].released2 {
+			w.Send(p2, &packet.Pubrel{ID: id})
+		}
+		w.AckAll(p2)
+	}
+	w.AckAll(s)
+	w.finish()
+	o.Distinct("queue-full" + fmt.Sprint(r.Intn(1)))
+	o.Sample(fmt.Sprintf("publisher queue full, %d lines", len(w.trace)))
+}
+
 // takeover storms for C13
 func c13Script(r *gen.Rng, o *out.W) {
 	w := newWorld(o, "C13", 1+r.Intn(3), 100, nil)
@@ -891,6 +924,7 @@ func TestHarness(t *testing.T) {
 		})
 	case "C07":
 		sc("C07 publisher script", c07Script)
+		runCase(t, o, "C07 publisher queue full", func() { c07QueueFull(r, o) })
 	case "C08":
 		sc("C08 offline", c08Offline)
 		rs("C08 subscriber behaviours", func() profile {
